@@ -237,7 +237,7 @@ var c10Ops = []string{"=", "!=", "<", "<=", ">", ">=", "~", ""}
 
 func c10Dict(code int) []any {
 	d := dictValues(code)
-	if len(d) > 9 {
+	if len(d) > 9 && code != 13 { // times: keep the zoned entries and their UTC twins
 		d = d[:9]
 	}
 	return d
@@ -323,6 +323,24 @@ func runC10(c *ctx) {
 			for _, op := range c10Ops {
 				c10Case(c, all, []setOp{{"one", id}}, &ftree{field: "one", op: op, val: "1"}, "to-one")
 			}
+		}
+	}
+	// to-many sets whose IDs contain what an implementation might join them with
+	for _, pr := range [][2][]string{{{"a,b", "c"}, {"a", "b,c"}}, {{"a,b"}, {"a", "b"}}, {{"ab", "c"}, {"a", "bc"}}, {{"a b", "c"}, {"a", "b c"}}, {{"a\x00b"}, {"a", "b"}},
+		{{"a|b", "c"}, {"a", "b|c"}}, {{"a\nb"}, {"a", "b"}}, {{"a", ""}, {"a"}}, {{"", ""}, {""}}, {{"a,b", "c"}, {"c", "a,b"}}} {
+		for _, op := range []string{"=", "!=", "<", "<=", ">", ">=", "~"} {
+			c10Case(c, all, []setOp{{"many", append([]string{}, pr[0]...)}}, &ftree{field: "many", op: op, val: append([]string{}, pr[1]...)}, "to-many-separators")
+			c10Case(c, all, []setOp{{"many", append([]string{}, pr[1]...)}}, &ftree{field: "many", op: op, val: append([]string{}, pr[0]...)}, "to-many-separators")
+		}
+	}
+	// deep chains of single-child and / or nodes around a leaf
+	for _, depth := range []int{31, 32, 33, 34, 40, 64, 100, 300} {
+		for _, leaf := range []*ftree{{field: "int", op: "=", val: 5}, {field: "int", op: "=", val: 6}, {op: "and"}, {op: "or"}} {
+			f := leaf
+			for i := 0; i < depth; i++ {
+				f = &ftree{op: []string{"and", "or"}[i%2], subs: []*ftree{f}}
+			}
+			c10Case(c, all, []setOp{{"int", 5}}, f, "deep-chain")
 		}
 	}
 	// and / or trees
